@@ -359,6 +359,13 @@ def main():
                 elif not any(confirmed.get((r["id"], i)) for i in range(len(vs))):
                     problems.append((3, f"ENGINE-MISMATCH {sname}/{r['id']}: twin violation did not reproduce natively"))
                 continue
+            if expect == "diagnostic":
+                for i, v in enumerate(vs):
+                    if confirmed.get((r["id"], i)):
+                        cov.setdefault("diagnostics", []).append({"job": r["id"], "label": v["label"], "input": v["model"]})
+                if vs:
+                    notes.append(f"DIAGNOSTIC (not part of the verdict) {r['id']}: {sorted(set(v['label'] for v in vs))} violated, e.g. {vs[0].get('model')}")
+                continue
             fid = expect[6:] if expect.startswith("known:") else None
             if fid and r["n_violations"] == 0 and not r.get("unsupported"):
                 notes.append(f"known finding {fid} no longer reproduces in job {r['id']} (stale entry or fixed)")
